@@ -37,7 +37,7 @@ def neighbours(tree, prev):
 def run(ctx):
     quick = ctx.quick
     mod = 199 if quick else 1
-    deep = 9973 if quick else 2003      # quick: ~300 trees of level 2, ~70 of level 3
+    deep = 9973 if quick else 211      # quick: ~300 trees of level 2, ~70 of level 3
     max_level = 3
     ctx.cov["bounds"] = {"ParamAlg": dict(leaves=["P2", "P3", "PT", "int 2", "float 0.5"], operators=["+", "-", "*", "/", "**"],
                                           operator_levels_exhaustive=1 if quick else 2,
@@ -46,8 +46,12 @@ def run(ctx):
                          "mechanism": pa.MECH}
     ctx.cov["exhaustive"] = not quick
     # ---- 1. design: TLC decides the clauses on the specification and exports the trees
+    # (thorough: the exhaustive run goes without TLC's coverage instrumentation; vacuity is guarded on a sampled run)
     r = ctx.model_check("ParamAlg", pa.model_cfg(max_level, mod, ctx.seed, pa.MECH, pa.INVARIANTS + ["Emit"], deep=deep),
-                        name="ParamAlg[C16]", required_actions=ACTIONS, timeout=2400, heap="8g")
+                        name="ParamAlg[C16]", required_actions=ACTIONS if quick else (), timeout=2400, heap="8g")
+    if not quick:
+        ctx.model_check("ParamAlg", pa.model_cfg(2, 199, ctx.seed, pa.MECH, pa.INVARIANTS), name="ParamAlg[C16, coverage of actions]",
+                        required_actions=ACTIONS, count=False)
     items = pa.parse_export(r)
     if len(items) < 108:
         raise core.MachineryFailure(f"C16: only {len(items)} expressions exported")
@@ -84,7 +88,7 @@ def run(ctx):
     sdom = [it for it in items if it["solver"]]
     neg = [it for it in items if "P2" in pa.kinds(it["tree"]) and it["level"] <= 2]
     rnd.shuffle(neg)
-    nsolve = 60 if quick else 1500
+    nsolve = 60 if quick else 600
     keep = [it for it in sdom if it["level"] <= 1]
     rest = [it for it in sdom if it["level"] > 1]
     rnd.shuffle(rest)
